@@ -167,8 +167,61 @@ func c14Check(c *Ctx, ops []c14Op, nslots int, kind string) {
 	}
 }
 
+// large amounts staged through ChainBuffer before a cut (a block with a String column of a megabyte and more), then further
+// appends and chained slices before the flush: sizes around every power of two from 64 KiB to 4 MiB.  Real writer only
+// (the model driver is not fed megabytes); the expectation is the concatenation kept by c14Real.
+func c14LargeStaging(c *Ctx) {
+	R := c.R
+	r := c.Rng
+	var sizes []int
+	for _, p2 := range []int{64 << 10, 128 << 10, 256 << 10, 512 << 10, 1 << 20, 2 << 20, 4 << 20} {
+		sizes = append(sizes, p2-1, p2, p2+1)
+	}
+	sizes = append(sizes, 1200000, 3<<20+17)
+	for _, n := range sizes {
+		if !c.Thorough && n > 2<<20+1 {
+			continue
+		}
+		big := r.Bytes(n)
+		for _, shape := range []int{0, 1, 2} {
+			var ops []c14Op
+			ops = append(ops, c14Op{kind: "m", slot: 0, bs: r.Bytes(100)})
+			switch shape {
+			case 0: // large append, cut by a chained slice, small appends after it
+				ops = append(ops, c14Op{kind: "a", bs: big}, c14Op{kind: "c", slot: 0}, c14Op{kind: "a", bs: r.Bytes(24)}, c14Op{kind: "c", slot: 0}, c14Op{kind: "a", bs: r.Bytes(10)})
+			case 1: // small first, then the large one, then more
+				ops = append(ops, c14Op{kind: "a", bs: r.Bytes(7)}, c14Op{kind: "c", slot: 0}, c14Op{kind: "a", bs: big}, c14Op{kind: "c", slot: 0}, c14Op{kind: "a", bs: r.Bytes(3)}, c14Op{kind: "a", bs: r.Bytes(5)}, c14Op{kind: "c", slot: 0})
+			default: // two large appends with a cut in between
+				ops = append(ops, c14Op{kind: "a", bs: big}, c14Op{kind: "c", slot: 0}, c14Op{kind: "a", bs: big[:len(big)/2]}, c14Op{kind: "c", slot: 0}, c14Op{kind: "a", bs: r.Bytes(9)})
+			}
+			ops = append(ops, c14Op{kind: "f", fail: -1}, c14Op{kind: "a", bs: r.Bytes(5)}, c14Op{kind: "c", slot: 0}, c14Op{kind: "f", fail: -1})
+			got, want, _, pmsg := c14Real(ops, 1)
+			cs := map[string]any{"kind": "large-staging", "staged_bytes": n, "shape": shape}
+			R.Case(fmt.Sprintf("c14-large|%d|%d", n, shape), true)
+			R.Count("shape:large-staging")
+			if pmsg != "" {
+				R.Violate(Violation{Kind: "oracle", Key: "writer-panic", What: "proto.Writer panicked: " + pmsg, Case: cs})
+				return
+			}
+			if len(got) != len(want) {
+				R.Violate(Violation{Kind: "oracle", Key: "flush-bytes", What: "number of flush results differs", Case: cs})
+				return
+			}
+			for i := range got {
+				if got[i] != want[i] {
+					cs["flush"] = i
+					cs["got_len"], cs["want_len"] = len(got[i])/2, len(want[i])/2
+					R.Violate(Violation{Kind: "oracle", Key: "flush-bytes", What: fmt.Sprintf("after %d bytes were staged before a cut, flush %d delivered %d bytes, the concatenation of what was chained has %d: %s", n, i, len(got[i])/2, len(want[i])/2, diffHex(want[i], got[i])), Case: cs})
+					return
+				}
+			}
+		}
+	}
+}
+
 func runC14(c *Ctx) {
 	R := c.R
+	defer c14LargeStaging(c)
 	R.Rule = "operation sequences over {ChainBuffer append of k bytes, ChainWrite of caller slice (empty or not), in-place overwrite of a chained slice before flush, Flush to accept-all / fail-after-n sink}: exhaustive up to a bound over a small alphabet, then random up to length 200 with buffer growth across cut points; non-trivial = contains a flush; distinct by op string. Plus WriteColumn-vs-EncodeColumn path equivalence on sampled columns."
 	r := c.Rng
 	// the client's own use of the writer: large compressed frames and zero-copy columns chained, then a further block
